@@ -51,4 +51,65 @@ def c02(q):
     }
 
 
-PLANS = {"C01": c01, "C02": c02}
+def _emplace(q, rule, gates, miri_cases=400):
+    return {
+        "level": "exploration",
+        "rule": rule,
+        "gates": gates,
+        "jobs": [
+            {"sub": "random", "cfgs": ["debug", "release"], "cases": 150_000 if q else 3_000_000, "ms": 30_000 if q else 300_000},
+            {"sub": "random", "cfgs": ["miri"], "cases": miri_cases if q else 20_000, "ms": 45_000 if q else 600_000, "lite": True, "wall": 300 if q else 1500},
+        ] + ([] if q else [
+            {"sub": "random", "cfgs": ["miri-tb"], "cases": 10_000, "ms": 300_000, "lite": True, "wall": 900},
+            {"sub": "random", "cfgs": ["asan"], "cases": 500_000, "ms": 200_000},
+        ]),
+    }
+
+
+def c03(q):
+    return _emplace(q, "cases = (shape, generated value, emplacer style, aligned buffer of needed..needed+k bytes pre-filled with garbage, tail/island placement). "
+                    "The value is emplaced with the real emplacers (literals, *Init structs/enums, per-variant *Init, FromArray, FromIterator, FromStr, flex FromIterator, Empty); "
+                    "oracle: read-back == specified value, own bytes revalidate, every non-padding byte equals the reference encoder's image, size() == reference extent. "
+                    "Distinct = distinct (shape, value, style class, buffer class); all cases are non-trivial (unsafe writes happen in each).",
+                    ["zone:fits", "outcome:ok"])
+
+
+def c15(q):
+    return _emplace(q, "cases = (shape, value, buffer length n from 0..needed+ALIGN+2 with boundary bias: MIN_SIZE-1, MIN_SIZE, needed-1, needed, needed+1, "
+                    "needed-ALIGN, ..., address offset incl. misaligned, API: new_in_place / FlatWrap::new_in_place). Oracle: misaligned -> BadAlign; n < content end -> InsufficientSize; "
+                    "floor(n, ALIGN) >= reference extent -> success satisfying the C03 clauses; in between (only padding missing) either. No panic, no write outside the slice. "
+                    "Distinct = distinct (shape, zone, length class, value, style).",
+                    ["zone:fits", "zone:too-small", "zone:misaligned", "zone:may", "outcome:ok", "outcome:BadAlign", "outcome:InsufficientSize"])
+
+
+def c17(q):
+    return _emplace(q, "cases = (portable shape, value, address offset 0..8). Oracle: ALIGN == 1; as_bytes()[..size()] equals a layout-agnostic reference serialiser "
+                    "(tag, fields, length, elements in declaration order, fixed byte order; unused bytes of a smaller sized-enum variant are unspecified); value reads back at odd addresses. "
+                    "Distinct = distinct (shape, value, offset class).",
+                    ["c17:compared"])
+
+
+def c20(q):
+    return _emplace(q, "cases = (defaultable shape, buffer length needed..needed+2*ALIGN+, two different garbage fills, tail/island). Oracle: default_in_place succeeds, reads back the model default "
+                    "(zero / empty containers / field-wise / #[default] variant), validates, size() == minimal extent of that state, non-padding bytes identical for both garbage fills and equal to the reference image. "
+                    "Distinct = distinct (shape, buffer class).",
+                    ["c20:compared"])
+
+
+def c04(q):
+    return {
+        "level": "exploration",
+        "rule": ("enumeration of (shape, buffer length) for every zoo shape and, for unsized ones, every length MIN_SIZE..MIN_SIZE+4*ALIGN+2*elem; per pair: ALIGN / SIZE / MIN_SIZE / DATA_OFFSET / "
+                 "LAST_FIELD_OFFSET / DATA_MIN_SIZES against the reference C layout, then up to three reference images mapped with from_bytes: align_of_val, size_of_val (== reference, <= slice), "
+                 "as_bytes extent, address of every reachable field/element/item vs reference offset. Non-trivial = a value was mapped; distinct = (shape, length, value)."),
+        "exhaustive": True,
+        "exhaustive_note": "the (shape, length) table is enumerated completely; values per pair are sampled (3)",
+        "gates": ["mapped", "consts-checked", "field-addresses-compared"],
+        "jobs": [
+            {"sub": "table", "cfgs": ["debug", "release"], "cases": 1_000_000, "ms": 0, "shards": 8},
+            {"sub": "table", "cfgs": ["miri"], "cases": 1_000_000, "ms": 50_000 if q else 600_000, "wall": 300 if q else 1500},
+        ],
+    }
+
+
+PLANS = {"C01": c01, "C02": c02, "C03": c03, "C04": c04, "C15": c15, "C17": c17, "C20": c20}
